@@ -1495,3 +1495,23 @@ def paired(fn, a, b):
     """a and b always execute together on normal paths: one dominates the other and every path from it to the normal
     exit passes the other (the statement-level meaning of "in the same block", which a spliced helper would split)."""
     return (precedes(fn, a, b) and must_follow(fn, a, [b])) or (precedes(fn, b, a) and must_follow(fn, b, [a]))
+
+
+def returned_exprs(fn):
+    """[(return node, expression)] for the values fn returns; `return helper(...)` of a helper spliced into this view
+    (rules/inline.py) contributes the helper's own return expressions."""
+    out = []
+
+    def expand(r, e, depth=0):
+        e0 = strip_casts(e)
+        if is_node(e0) and e0['k'] == 'call' and e0.get('inlined') and is_node(e0.get('inl')) and depth < 3:
+            inner = [x for x in walk(e0['inl']) if x['k'] == 'ireturn' and x.get('e') is not None]
+            if inner:
+                for x in inner:
+                    expand(r, x['e'], depth + 1)
+                return
+        out.append((r, e))
+    for r in returns(fn):
+        if r.get('e') is not None:
+            expand(r, r['e'])
+    return out
